@@ -58,6 +58,9 @@ func replaceConfigs() []engine.Config {
 	var cc []engine.Config
 	for _, n := range ops.Names() {
 		o := ops.Get(n)
+		for _, rel := range extraRels(n, o) {
+			cc = append(cc, engine.Config{Op: n, Rel: rel}) // aliases of the input, output path is a symlink to an existing file
+		}
 		for _, rel := range o.Rels {
 			switch rel {
 			case ops.RelInPlace, ops.RelSame, ops.RelExisting, ops.RelExisting0, "append", "populated", "populated-ro":
